@@ -140,9 +140,14 @@ Proof.
   - intros e He. left. simpl in He. rewrite <- L. exact He.
 Qed.
 
+Lemma ext_fire_due : forall W s, ext s (fire_due W s).
+Proof. intros W s. apply ext_sleep. Qed.
+
 Lemma ext_wait : forall W s t, ext s (wait W s t).
 Proof.
-  intros W s t. unfold wait.
+  intros W s0 t. unfold wait.
+  pose proof (ext_fire_due W s0) as Ef. remember (fire_due W s0) as s. clear Heqs.
+  eapply ext_trans; [exact Ef|]. clear Ef s0.
   assert (E0 : ext s (emit s (LWait (now s) t))) by (apply ext_emit; exact I).
   remember (emit s (LWait (now s) t)) as s1.
   destruct (ev s1); [exact E0|].
@@ -378,9 +383,13 @@ Proof.
   rewrite tp_call_main. reflexivity.
 Qed.
 
+Lemma tp_fire_due : forall W s, topoll (fire_due W s) = topoll s.
+Proof. intros W s. apply tp_sleep. Qed.
+
 Lemma tp_wait : forall W s t, topoll (wait W s t) = topoll s.
 Proof.
-  intros W s t. unfold wait. destruct (ev _); [reflexivity|].
+  intros W s t. unfold wait. rewrite <- (tp_fire_due W s). generalize (fire_due W s). clear s. intros s.
+  destruct (ev _); [reflexivity|].
   destruct (acts _) as [|[t1 a] r]; [reflexivity|]. destruct (_ <=? _); [|reflexivity].
   rewrite tp_apply_act. reflexivity.
 Qed.
@@ -412,9 +421,9 @@ Proof.
     intros H. rewrite F, Fs in H. discriminate. }
   destruct (_ && _).
   - apply G.
-    + eapply ext_trans; [apply ext_wait|apply ext_set_ev].
-    + unfold topoll_ok. simpl. rewrite tp_wait.
-      pose proof (ext_wait W s1 (wait_time (mods s1) (now s1))) as (D & _).
+    + eapply ext_trans; [apply ext_wait|]. eapply ext_trans; [apply ext_fire_due|apply ext_set_ev].
+    + unfold topoll_ok. simpl. rewrite tp_fire_due, tp_wait.
+      pose proof (ext_trans _ _ _ (ext_wait W s1 (wait_time (mods s1) (now s1))) (ext_fire_due W _)) as (D & _).
       unfold descs in *. simpl in *. rewrite D. exact T1.
   - assert (T2 : topoll_ok (main_phase W s1)).
     { unfold topoll_ok. rewrite tp_main_phase. destruct (ext_main_phase W s1) as (D & _). rewrite D. exact T1. }
